@@ -4,6 +4,7 @@ import (
 	"flag"
 	"fmt"
 	"os"
+	"path/filepath"
 	"sort"
 	"strconv"
 
@@ -60,6 +61,13 @@ func main() {
 			os.Exit(2)
 		}
 		self, _ := os.Executable()
+		for _, p := range []*string{bin, driver, work, corpus} {
+			if *p != "" {
+				if a, err := filepath.Abs(*p); err == nil {
+					*p = a
+				}
+			}
+		}
 		env := &Env{Seed: s, Tier: *tier, Boost: *boost, Bin: *bin, Driver: *driver, Work: *work, Corpus: *corpus, JoinSrv: self}
 		res := newResult(*suite)
 		fn(env, res)
